@@ -35,6 +35,7 @@ func run(c *hlib.Ctx) {
 		w2[k] = v
 	}
 	w2["dupdelete"] = 4
+	w2["dupvec"] = 3
 	open := lakeh.Profile{Name: "c14-open", W: w2, MaxOps: 10}
 	lakeh.RunWitnesses(c, "C14", lakeh.Options{Prop: "C14", Determinism: 2, StopOnFail: true})
 	if c.Want("exhaustive") {
